@@ -1,5 +1,6 @@
-// Unit `fetch_ancestry` (C02, C01): the ancestry classification that FetchState::run and the ref-update policies rely on.
-// Real code: repository::ancestry (crates/radicle-fetch/src/git/repository.rs).
+// Unit `fetch_ancestry` (C02, C01): the ancestry classification that FetchState::run and the ref-update policies rely on,
+// and the policy decision of a single direct ref update.
+// Real code: repository::{ancestry, direct} (crates/radicle-fetch/src/git/repository.rs), refs::Policy.
 use vstd::prelude::*;
 //@include _prelude.rs
 
@@ -25,7 +26,42 @@ impl Backend {
     { unimplemented!() }
 }
 pub struct Repository { pub backend: Backend }
+/// a namespaced ref name (radicle::git::Namespaced, external): opaque
+#[derive(Debug)] pub struct Namespaced<'a> { pub id: u64, pub p: std::marker::PhantomData<&'a u8> }
+pub struct RefString { pub id: u64 }
+impl<'a> Clone for Namespaced<'a> { #[verifier::external_body] fn clone(&self) -> (r: Self) ensures r == *self { unimplemented!() } }
+impl<'a> Namespaced<'a> {
+    #[verifier::external_body] pub fn as_ref(&self) -> (r: &Namespaced<'a>) ensures *r == *self { unimplemented!() }
+    #[verifier::external_body] pub fn to_ref_string(&self) -> RefString { unimplemented!() }
+    #[verifier::external_body] pub fn to_owned(&self) -> Namespaced<'static> { unimplemented!() }
+}
+pub enum Either<L, R> { Left(L), Right(R) }
+pub struct Qualified<'a> { pub p: std::marker::PhantomData<&'a u8> }
+/// radicle::storage::RefUpdate (what was done to a ref)
+pub enum RefUpdate { Updated { name: RefString, old: Oid, new: Oid }, Created { name: RefString, oid: Oid }, Deleted { name: RefString, oid: Oid }, Skipped { name: RefString, oid: Oid } }
+impl RefUpdate {
+    /// RefUpdate::from(name, old, new) (radicle::storage, not extracted): which variant is irrelevant here
+    #[verifier::external_body] pub fn from(name: RefString, old: Oid, new: Oid) -> RefUpdate { unimplemented!() }
+}
+/// ghost: the commit `name` points at in the repository before the update (None if the ref does not exist)
+pub uninterp spec fn ref_at(name: u64) -> Option<Oid>;
+/// ASSUMED (libgit2 refname_to_id): the current target of the ref, if it exists
+#[verifier::external_body]
+pub fn refname_to_id<'a>(repo: &Repository, name: Namespaced<'a>) -> (r: Result<Option<Oid>, error::Resolve>) ensures r is Ok ==> r->Ok_0 == ref_at(name.id) { unimplemented!() }
+impl From<Oid> for raw::Oid { fn from(o: Oid) -> (r: raw::Oid) ensures r == o.0 { o.0 } }
+impl vstd::std_specs::convert::FromSpecImpl<Oid> for raw::Oid { open spec fn obeys_from_spec() -> bool { true } open spec fn from_spec(o: Oid) -> raw::Oid { o.0 } }
+impl Backend {
+    /// libgit2 `reference(name, target, force, msg)`: the WRITE to the repository. A returned Ok means the ref now points at `target`.
+    #[verifier::external_body]
+    pub fn reference<'a>(&self, name: &Namespaced<'a>, target: raw::Oid, force: bool, msg: &str) -> Result<(), raw::Error> { unimplemented!() }
+}
 pub mod error {
+    pub struct Resolve;
+    pub enum Update { Ancestry(Ancestry), Create { name: crate::Namespaced<'static>, target: crate::Oid, err: crate::raw::Error }, NonFF { name: crate::Namespaced<'static>, new: crate::Oid, cur: crate::Oid }, Resolve(Resolve) }
+    impl From<Ancestry> for Update { fn from(e: Ancestry) -> (r: Update) ensures r == Update::Ancestry(e) { Update::Ancestry(e) } }
+    impl vstd::std_specs::convert::FromSpecImpl<Ancestry> for Update { open spec fn obeys_from_spec() -> bool { true } open spec fn from_spec(e: Ancestry) -> Update { Update::Ancestry(e) } }
+    impl From<Resolve> for Update { fn from(e: Resolve) -> (r: Update) ensures r == Update::Resolve(e) { Update::Resolve(e) } }
+    impl vstd::std_specs::convert::FromSpecImpl<Resolve> for Update { open spec fn obeys_from_spec() -> bool { true } open spec fn from_spec(e: Resolve) -> Update { Update::Resolve(e) } }
     pub enum Ancestry { Missing { oid: crate::Oid }, Other }
     impl From<crate::raw::Error> for Ancestry { #[verifier::external_body] fn from(e: crate::raw::Error) -> Self { unimplemented!() } }
 }
@@ -44,7 +80,53 @@ pub open spec fn ancestry_spec(old: Oid, new: Oid) -> Ancestry {
     }
 }
 
+//@extract crates/radicle-fetch/src/git/refs/update.rs
+//@  item enum Policy
+//@    derive Clone, Copy, Debug
+//@  item enum Update
+//@    derive
+//@end
+
+/// From the statements: what a direct update of `name` to `target` under policy `no_ff` may do, given the current tip.
+///  * C01 (data refs, Policy::Allow): the ref ends up at `target` whatever the history relation -- the namespace must match the
+///    signed refs afterwards ("each pointing at the listed object");
+///  * C02 (rad/sigrefs of delegates: Abort, of others: Reject): the ref is never moved backwards or onto a diverging history:
+///    a rewind is rejected, a fork is rejected (Reject) or aborts the fetch (Abort).
+pub open spec fn direct_spec(name: u64, target: Oid, no_ff: Policy, r: Result<Updated<'_>, error::Update>) -> bool {
+    match ref_at(name) {
+        None => r is Ok ==> r->Ok_0 is Accepted,
+        Some(prev) => match ancestry_spec(prev, target) {
+            Ancestry::Equal => r is Ok ==> r->Ok_0 is Accepted,                       // (reported as Skipped)
+            Ancestry::Ahead => r is Ok ==> r->Ok_0 is Accepted,
+            Ancestry::Behind => r is Ok ==> ((no_ff is Allow) == (r->Ok_0 is Accepted)),
+            Ancestry::Diverged => (no_ff is Allow ==> (r is Ok ==> r->Ok_0 is Accepted))
+                && (no_ff is Reject ==> (r is Ok ==> r->Ok_0 is Rejected)) && (no_ff is Abort ==> r is Err),
+        },
+    }
+}
+
+impl<'a> vstd::std_specs::convert::FromSpecImpl<RefUpdate> for Updated<'a> { open spec fn obeys_from_spec() -> bool { true } open spec fn from_spec(up: RefUpdate) -> Updated<'a> { Updated::Accepted(up) } }
+impl<'a> vstd::std_specs::convert::FromSpecImpl<Update<'a>> for Updated<'a> { open spec fn obeys_from_spec() -> bool { true } open spec fn from_spec(up: Update<'a>) -> Updated<'a> { Updated::Rejected(up) } }
 //@extract crates/radicle-fetch/src/git/repository.rs
+//@  item enum Updated
+//@  impl From<RefUpdate> for Updated<'_>
+//@    fn from
+//@      ret r
+//@      ensures
+//@        r == Updated::Accepted(up)
+//@  impl <'a> From<Update<'a>> for Updated<'a>
+//@    fn from
+//@      ret r
+//@      ensures
+//@        r == Updated::Rejected(up)
+//@  fn direct
+//@    desugar_try
+//@    ret r
+//@    body_sub (?s)\s*\.map_err\(\|err\| error::Update::Create \{\s*name: name\.to_owned\(\),\s*target,\s*err,\s*\}\)\? => .map_err(|err| -> (o: error::Update) { error::Update::Create { name: name.to_owned(), target, err } })?
+//@    # Verus has no or-pattern + guard: `A | B if G =>` becomes `_ if matches!(scrutinee, A | B) && G =>` (the patterns bind nothing)
+//@    body_sub Ancestry::Behind \| Ancestry::Diverged if matches!\(no_ff, Policy::Allow\) => _ if matches!(ancestry, Ancestry::Behind | Ancestry::Diverged) && matches!(no_ff, Policy::Allow)
+//@    ensures
+//@      direct_spec(name.id, target, no_ff, r) //[C01,C02]
 //@  item enum Ancestry
 //@    derive Debug, Clone, Copy, PartialEq, Eq
 //@  fn ancestry
